@@ -232,7 +232,10 @@ impl Array {
             );
         });
 
-        let backward_op: Option<BackwardOp> = if !a.is_tracked.get() && !b.is_tracked.get() {
+        // the additive term is an operand like the others
+        let is_any_tracked =
+            a.is_tracked.get() || b.is_tracked.get() || c.map_or(false, |c| c.is_tracked.get());
+        let backward_op: Option<BackwardOp> = if !is_any_tracked {
             None
         } else {
             Some(Rc::new(move |c, t, x| {
